@@ -385,6 +385,10 @@ func TestVerifC02Known(t *testing.T) {
 	kf1.NumReq, kf1.Err = 2, &vfC02Err{Code: 3, HasMsg: true, Msg: "m"}
 	kf2 := base
 	kf2.NumReq = 1
+	// (the same shape with surplus requests after the last response: 3 requests / 1 response, 4 / 2)
+	kf2b, kf2c := base, base
+	kf2b.NumReq, kf2b.ReqData, kf2b.RespData = 3, []int{10, 5, 7}, []int{4}
+	kf2c.NumReq, kf2c.ReqData, kf2c.RespData = 4, []int{10, 5, 7, 1}, []int{4, 9}
 	cases := []known{
 		{key: "known:fullduplex-error-no-responses-many-requests", c: vfC02Case{Tests: []vfC02Test{kf1}, Compression: "COMPRESSION_IDENTITY", H2: true},
 			same: func(msg string) bool { return strings.Contains(msg, "request messages to be described") || strings.Contains(msg, "does not match expected error detail") || strings.Contains(msg, "request #") }},
@@ -398,6 +402,9 @@ func TestVerifC02Known(t *testing.T) {
 				}
 				return strings.Contains(msg, "unexpected EOF")
 			}},
+	}
+	for _, variant := range []vfC02Test{kf2b, kf2c} {
+		cases = append(cases, known{key: cases[1].key, c: vfC02Case{Tests: []vfC02Test{variant}, Compression: "COMPRESSION_IDENTITY", H2: true}, same: cases[1].same})
 	}
 	for _, k := range cases {
 		err := verifkit.SafeCall(func() error { return vfC02Check(k.c) })
